@@ -18,9 +18,12 @@ from typing import Any, Callable, Dict, Iterable, List, Optional, Tuple
 
 VERIF = Path(__file__).resolve().parent.parent
 REPO = Path(os.environ.get("VERIF_REPO", "/repo"))
-BUILD = VERIF / "build"
+# Isolated mode (used by lib/try_seed.py only): VERIF_REPO names another checkout of the repository and VERIF_BUILD a private
+# build directory; build output, replay files and the evidence file of such a run stay under VERIF_BUILD, so it can run next
+# to checks of the real /repo.  The registered commands never set these variables.
+BUILD = Path(os.environ.get("VERIF_BUILD", str(VERIF / "build")))
 SPEC = VERIF / "spec"
-EVIDENCE = VERIF / "evidence"
+EVIDENCE = (BUILD / "evidence") if "VERIF_BUILD" in os.environ else VERIF / "evidence"
 TLA_JAR = "/opt/veriftools/tla/tla2tools.jar"
 COMMUNITY = "/opt/veriftools/tla/CommunityModules-deps.jar"
 NCPU = os.cpu_count() or 4
@@ -431,9 +434,17 @@ def build_vh(quiet: bool = True) -> Path:
     env = dict(os.environ)
     env["CARGO_TARGET_DIR"] = str(BUILD / "target")
     env["CARGO_NET_OFFLINE"] = "true"
+    rust = VERIF / "harness" / "rust"
+    if REPO != Path("/repo"):
+        # the shadow manifest names /repo: use a private copy of the harness crates that names the other checkout
+        rust = BUILD / "rust"
+        shutil.rmtree(rust, ignore_errors=True)
+        shutil.copytree(VERIF / "harness" / "rust", rust)
+        man = rust / "shadow" / "Cargo.toml"
+        man.write_text(man.read_text().replace('"/repo/sc62015/core/src/lib.rs"', f'"{REPO}/sc62015/core/src/lib.rs"'))
     p = subprocess.run(
         ["cargo", "build", "--release", "--offline"],
-        cwd=str(VERIF / "harness" / "rust" / "vh"),
+        cwd=str(rust / "vh"),
         env=env,
         capture_output=True,
         text=True,
